@@ -91,7 +91,7 @@ gen_case(const std::string &prop, bool big)
   c.cls = pick(0, 1);
   c.type = pick(0, 3);
   c.n = gen_n(prop, c.cls, big);
-  if (prop == "C06" && c.cls == 1 && pick(0, big ? 3999 : 14999) == 0) {
+  if (prop == "C06" && c.cls == 1 && pick(0, big ? 7999 : 14999) == 0) {
     // bin counts next to the limits of the 32-bit types (for the 64-bit types: around 2^30 .. 2^32). Rare, because the
     // approximate class's constructor is O(n / 100): one such case costs seconds.
     const uint64_t top = c.type == 2 ? 0x7FFFFFFDULL : 0xFFFFFFFDULL;
